@@ -18,6 +18,9 @@ def decl_type(d: Decl) -> Dict:
     return {"kind": "literal", "value": {"properties": d.props}}
 
 
+RANDOM_PER_CLASS = 300
+
+
 def root_inputs(mm: MetaModel, d: Decl, cap: int = 60) -> List[Any]:
     t = decl_type(d)
     out = object_variants(mm, t)
@@ -39,13 +42,29 @@ def root_inputs(mm: MetaModel, d: Decl, cap: int = 60) -> List[Any]:
     seen = set()
     uniq = []
     import json
+    import os
+    import random
+    import zlib
 
     for j in out:
         k = json.dumps(j, sort_keys=True, default=str)
         if k not in seen and mm.valid(t, j, True):
             seen.add(k)
             uniq.append(j)
-    return uniq[:cap]
+    uniq = uniq[:cap]
+    if os.environ.get("VERIF_TIER") == "thorough":
+        # thorough tiers: random strictly valid values on top of the structured family (seeded by VERIF_SEED and the class name)
+        rng = random.Random(zlib.crc32(d.pyname.encode()) ^ (int(os.environ.get("VERIF_SEED", "0") or 0) * 2654435761 % 2**32))
+        for _ in range(RANDOM_PER_CLASS):
+            try:
+                j = mm.random_value(t, rng)
+            except Exception:  # noqa
+                continue
+            k = json.dumps(j, sort_keys=True, default=str)
+            if k not in seen and mm.valid(t, j, True):
+                seen.add(k)
+                uniq.append(j)
+    return uniq
 
 
 # ---------------------------------------------------------------------------------------------
